@@ -184,6 +184,7 @@ func onxCalls(ops []map[string]interface{}, def string) (calls []string, lines [
 }
 
 func runC17Case(id string, c *c17Case) {
+	defer recoverCase(id, c)
 	inv := loadInv17()
 	cs := &Case{ID: id, Kind: c.Name, HypOK: true, Replay: c, Nontrivial: true}
 	def, yerr := loadY17(c.Name)
